@@ -423,6 +423,7 @@ def write_evidence(prop, tier, seed, runs, wall, budget, workers, nviol, known_s
             "aux_alerts": aux,
             "workers": workers,
             "budget_sec": budget,
+            "slowest_runs": [{"seed": r["seed"], "wall_ms": r.get("wall_ms"), "steps": (r.get("stats") or {}).get("steps")} for r in sorted(runs, key=lambda r: -(r.get("wall_ms") or 0))[:3]],
         },
         "assumptions": [
             "sampling of schedules and fault sequences, not enumeration",
